@@ -184,6 +184,46 @@ func VerifC16SortQuery() {
 	}
 }
 
+// VerifC16SortQueryLong: stability of sort-query on queries long enough for the sorting library to
+// switch algorithm (13..16 parameters, names a/b chosen by 7 symbolic bits, distinct values).
+func VerifC16SortQueryLong() {
+	profs := []url.Parser{New(WithSortQuery(SortKeys)), WhatWgSortQuery, Semantic}
+	p := profs[vnd.Pick(len(profs))]
+	n := 13 + vnd.Pick(vnd.Param("C16.NLong", 4, 20))
+	var bit [7]bool
+	for i := range bit {
+		bit[i] = vnd.Bool()
+	}
+	q := ""
+	var want []model.Pair
+	for i := 0; i < n; i++ {
+		nm := "b"
+		if bit[(i*3)%7] {
+			nm = "a"
+		}
+		vl := string([]byte{'0' + byte(i/10), '0' + byte(i%10)})
+		if i > 0 {
+			q += "&"
+		}
+		q += nm + "=" + vl
+		want = append(want, model.Pair{Name: nm, Value: vl})
+	}
+	want = model.ListSortStable(want)
+	u, err := p.Parse("http://h.com/p?" + q)
+	if err != nil {
+		vnd.Fail("a plain query is rejected")
+	}
+	got := decodedPairs(u)
+	if len(got) != len(want) {
+		vnd.Fail("sort-query changed the number of parameters")
+	}
+	for i := range want {
+		if got[i].Name != want[i].Name || got[i].Value != want[i].Value {
+			vnd.Fail("sort-query (keys) is not the stable sort by name")
+		}
+	}
+}
+
 // VerifC16DefaultScheme: default-scheme parses an input that fails only for lack of a scheme as
 // scheme://input and leaves other inputs unaffected.
 func VerifC16DefaultScheme() {
@@ -471,6 +511,7 @@ func init() {
 	verifHarnesses["VerifC16NoOpts"] = VerifC16NoOpts
 	verifHarnesses["VerifC16RemoveX"] = VerifC16RemoveX
 	verifHarnesses["VerifC16SortQuery"] = VerifC16SortQuery
+	verifHarnesses["VerifC16SortQueryLong"] = VerifC16SortQueryLong
 	verifHarnesses["VerifC16DefaultScheme"] = VerifC16DefaultScheme
 	verifHarnesses["VerifC16Neutral"] = VerifC16Neutral
 	verifHarnesses["VerifC16EncodeSets"] = VerifC16EncodeSets
